@@ -235,7 +235,8 @@ def search(prop, tier, seed, runs=None, workers=None, wall_cap=None, log=print, 
     runs = runs or RUNS[prop][0 if tier == "quick" else 1]
     workers = workers or min(16, os.cpu_count() or 4)
     wall_cap = wall_cap or WALL_CAP[tier]
-    cpu, wall = (90, 200) if tier == "quick" else (180, 400)
+    # CPU-time limits decide; the wall limit is only a backstop (8x) and never a verdict
+    cpu, wall = (90, 720) if tier == "quick" else (180, 1440)
     chunks = [(c, list(range(c * CHUNK, min(runs, (c + 1) * CHUNK)))) for c in range((runs + CHUNK - 1) // CHUNK)]
     known = load_known()
     results = []
@@ -262,13 +263,24 @@ def search(prop, tier, seed, runs=None, workers=None, wall_cap=None, log=print, 
     herr = [r for r in results if r.get("status") == "harness-error"]
     budget = [r for r in results if r.get("status") == "budget"]
     # bounded liveness: a run over budget is re-executed once alone
+    # A hang is reported only if the re-execution exhausts 3x the CPU budget
+    # *inside a library call* that has used >= 30x the CPU of everything else
+    # in the run (reference included): a slow reference or a workload that is
+    # legitimately expensive (polynomial blow-up) is an overrun, not a verdict.
     hangs = []
+    overruns = []
     for r in budget[:4]:
         rr = run_chunk(prop, seed, tier, r["chunk"], [r["run"]], cpu * 3, wall * 3)[0]
         if rr.get("status") == "budget":
-            hangs.append(r)
+            lib, tot = rr.get("lib_cpu", 0.0), rr.get("total_cpu", 0.0)
+            if rr.get("kind") == "cpu" and rr.get("in_lib") and lib >= 30 * max(1.0, tot - lib):
+                hangs.append(dict(r, detail=rr))
+            else:
+                overruns.append(dict(r, detail={k: rr.get(k) for k in ("kind", "lib_cpu", "total_cpu", "component")}))
         elif rr.get("status") in ("ok", "violation"):
             results[results.index(r)] = rr
+    for r in overruns:
+        lines.append(f"BUDGET-OVERRUN run={r['run']} (no verdict): {r['detail']}")
     viol_runs = [r for r in results if r.get("status") == "violation"]
     known_hit = {}
     new = []
@@ -315,7 +327,7 @@ def search(prop, tier, seed, runs=None, workers=None, wall_cap=None, log=print, 
     for r in hangs:
         path = os.path.join(VERIF, "replays", f"{prop}-{seed}-{r['run']}-hang.json")
         os.makedirs(os.path.dirname(path), exist_ok=True)
-        json.dump({"property": prop, "violation_class": "hang", "seed": seed, "run": r["run"],
+        json.dump({"property": prop, "violation_class": "hang", "seed": seed, "run": r["run"], "detail": r.get("detail"),
                    "tier": tier, "hashseed": r["hashseed"],
                    "how_to_replay": f"VERIF_SEED={seed} ./check {prop} --tier {tier} --only-run {r['run']}"},
                   open(path, "w"), indent=1)
@@ -422,6 +434,10 @@ def write_evidence(prop, tier, seed, agg, results, wall_s, n_new, known_hit, ski
 
 
 def main(argv=None):
+    try:
+        sys.stdout.reconfigure(line_buffering=True)
+    except Exception:
+        pass
     ap = argparse.ArgumentParser()
     ap.add_argument("prop")
     ap.add_argument("--tier", default=os.environ.get("VERIF_TIER", "quick"))
